@@ -131,6 +131,20 @@ def small_model(pc, extra, len_vars, timeout=60000):
     return None, False
 
 
+CAPS = (3, 300, REPLAY_CAP)
+
+
+def compare_small(pc, lens, a, b, st):
+    """first 'differ' outcome under the smallest length cap that admits one (small replay inputs); (outcome, all_unknowns)"""
+    for cap in CAPS:
+        caps = [z3.ULE(L, z3.BitVecVal(cap, 64)) for L in lens]
+        outs = SE.compare(list(pc) + caps, a, b, st)
+        dif = [o for o in outs if o[0] == "differ"]
+        if dif:
+            return dif[0]
+    return None
+
+
 SEQ_UFS = {"REMOVE_CODESEPARATORS": C.remove_codeseparators}
 BV_UFS = {"REMOVE_CODESEPARATORS_LEN": lambda b: len(C.remove_codeseparators(b))}
 
@@ -196,18 +210,18 @@ def discharge(env, qr, results, spec_of, request_of, what, expect_err_ok=True):
             if not dif:
                 continue
             st2 = {}
-            small_out = [o for o in SE.compare(list(r.pc) + caps, ctx._got, sp[1], st2) if o[0] == "differ"]
+            so = compare_small(list(r.pc) + getattr(ctx, "replay_extra", []), all_len_vars(ctx), ctx._got, sp[1], st2)
             qr.solver_s += st2.get("solver_s", 0.0)
             qr.queries += st2.get("queries", 0)
-            if small_out:
-                m, small = small_out[0][2], True
-                kind = f"bytes differ from the reference encoding ({small_out[0][3]})"
+            if so:
+                m, small = so[2], True
+                kind = f"bytes differ from the reference encoding ({so[3]})"
             else:
                 m, small = dif[0][2], False
         else:
             t0 = time.time()
             qr.queries += 1
-            m, small = small_model(r.pc, bad, all_len_vars(ctx))
+            m, small = small_model(list(r.pc) + getattr(ctx, "replay_extra", []), bad, all_len_vars(ctx))
             qr.solver_s += time.time() - t0
             if m is None:
                 continue
@@ -264,7 +278,7 @@ def validate_translation(env, qr, results, request_of, n=1):
         got = ret.f[0] if isinstance(ret, Enum) and ret.name == "Result" and ret.variant == "Ok" else ret if isinstance(ret, Bytes) else None
         if not isinstance(got, Bytes):
             continue
-        m, small = small_model(r.pc, [], all_len_vars(r.ctx))
+        m, small = small_model(list(r.pc) + getattr(r.ctx, "replay_extra", []), [], all_len_vars(r.ctx))
         if m is None or not small:
             continue
         b = Binder(m)
@@ -382,6 +396,9 @@ def q_legacy(env, k_in, k_out, flags=LEGACY_FLAGS, name=None):
                 sub, subL = sym_bytes(ex, ctx, "subscript")
                 val = z3.BitVec("value", 64)
                 ctx.sub = (sub, subL, val)
+                # replay inputs carry no OP_CODESEPARATOR (its removal is Script-internal and uninterpreted here), so for
+                # them - and only for model search, never for the proof - the separator-free length is the length itself
+                ctx.replay_extra = [uf("REMOVE_CODESEPARATORS_LEN", SEQ, z3.BitVecSort(64))(sub) == subL]
                 args = [Ptr([ctx.tx.value], 0), Int(idx, "usize"), flag_enum(P, flag), Ptr([mk_script(sub)], 0), Int(val, "u64")]
                 return entry, args, ctx
             try:
@@ -401,7 +418,7 @@ def q_legacy(env, k_in, k_out, flags=LEGACY_FLAGS, name=None):
             def request_of(ctx, b, flag=flag, idx=idx):
                 txj = b.tx(ctx.tx)
                 sub, subL, val = ctx.sub
-                ops = [{"op": "preimage", "flag": flag, "idx": idx, "subscript": b.script(sub, subL).hex(), "value": b.bv(val)}]
+                ops = [{"op": "preimage", "flag": flag, "idx": idx, "subscript": b.script(sub, subL, allow_cs=False).hex(), "value": b.bv(val)}]
                 return {"tx": txj, "ops": ops}, 0
             discharge(env, qr, results, spec_of, request_of, f"legacy preimage flag={flag:#x} idx={idx} k_in={k_in} k_out={k_out}")
             if flag == flags[0] and idx == 0:
@@ -456,3 +473,242 @@ QUERIES = {}
 
 def register(name, fn, **meta):
     QUERIES[name] = (fn, meta)
+
+
+# ----------------------------------------------------------------------------- C04: cache invariant, one inductive step per mutator
+class TxView:
+    """reference-side view (z3 terms) of a Transaction *value* of the executor"""
+
+    def __init__(self, ex, P, txv):
+        g = lambda sv, name: sv.f[P.structs[sv.name].index(name)]
+        self.version = g(txv, "version").t
+        self.locktime = g(txv, "n_locktime").t
+        self.ins, self.outs = [], []
+        for iv in g(txv, "inputs").f:
+            pid = ex.seq_items(g(iv, "prev_tx_id").s)
+            if pid is None or len(pid) != 32:
+                raise Unsupported("prev_tx_id is not 32 concrete-length bytes")
+            sc = g(iv, "unlocking_script").f[0].s
+            self.ins.append({"prev_tx_id": pid, "vout": g(iv, "vout").t, "sequence": g(iv, "sequence").t, "script": sc, "script_len": ex.seq_len(sc)})
+        for ov in g(txv, "outputs").f:
+            sc = g(ov, "script_pub_key").f[0].s
+            self.outs.append({"value": g(ov, "value").t, "script": sc, "script_len": ex.seq_len(sc)})
+        hc = g(txv, "hash_cache")
+        self.slots = [g(hc, n) for n in ("hash_inputs", "hash_sequence", "hash_outputs")]
+
+
+def slot_specs(view):
+    e = z3.Empty(SEQ)
+    return (H256d(seq_concat(*[wire_outpoint(i) for i in view.ins]) if view.ins else e),
+            H256d(seq_concat(*[u32le(i["sequence"]) for i in view.ins]) if view.ins else e),
+            H256d(seq_concat(*[wire_txout(o) for o in view.outs]) if view.outs else e))
+
+
+def fresh_txin(ex, ctx, P, name):
+    pid = fixed_bytes(ctx, name + "_prevtxid", 32)
+    d = {"prev_tx_id": pid, "vout": z3.BitVec(name + "_vout", 32), "sequence": z3.BitVec(name + "_sequence", 32)}
+    d["script"], d["script_len"] = sym_bytes(ex, ctx, name + "_script")
+    v = mk_struct(P, "TxIn", prev_tx_id=Bytes(seq_of(pid)), vout=Int(d["vout"], "u32"), unlocking_script=mk_script(d["script"]), sequence=Int(d["sequence"], "u32"),
+                  locking_script=none(), satoshis=none())
+    return d, v
+
+
+def fresh_txout(ex, ctx, P, name):
+    d = {"value": z3.BitVec(name + "_value", 64)}
+    d["script"], d["script_len"] = sym_bytes(ex, ctx, name + "_script")
+    return d, mk_struct(P, "TxOut", value=Int(d["value"], "u64"), script_pub_key=mk_script(d["script"]))
+
+
+SLOT_NAMES = ("hash_inputs", "hash_sequence", "hash_outputs")
+SLOT_READER = {0: 0x42, 1: 0x41, 2: 0xc1}   # a FORKID flag whose preimage reads the slot
+
+
+def mutators(P):
+    """every crate function whose first parameter is `&mut Transaction` (so a new mutator is picked up automatically)"""
+    out = []
+    for name, f in P.fns.items():
+        if "{closure" in name or "promoted[" in name or not f.params:
+            continue
+        if re.sub(r"\s+", "", f.params[0][1]) in ("&muttransaction::Transaction", "&mutTransaction"):
+            out.append(name)
+    return sorted(out)
+
+
+import re
+
+
+def synth_args(ex, ctx, P, f, choice):
+    """symbolic arguments for a `&mut Transaction` method from its parameter types; choice: dict of enumerated parameters"""
+    args, desc = [], []
+    for n, ty in f.params[1:]:
+        t = re.sub(r"\s+", "", ty)
+        pname = f"a{n}"
+        if t == "usize":
+            v = z3.BitVec(pname + "_usize", 64)
+            ctx.vars[pname] = v
+            args.append(Int(v, "usize"))
+            desc.append(("usize", v))
+        elif t in ("u32", "u64"):
+            v = z3.BitVec(pname + "_" + t, INT_BITS[t])
+            args.append(Int(v, t))
+            desc.append((t, v))
+        elif t.endswith("txin::TxIn") and t.startswith("&"):
+            d, val = fresh_txin(ex, ctx, P, pname)
+            args.append(Ptr([val], 0))
+            desc.append(("txin", d))
+        elif t.endswith("txout::TxOut") and t.startswith("&"):
+            d, val = fresh_txout(ex, ctx, P, pname)
+            args.append(Ptr([val], 0))
+            desc.append(("txout", d))
+        elif t in ("std::vec::Vec<transaction::txin::TxIn>", "Vec<txin::TxIn>", "std::vec::Vec<txin::TxIn>"):
+            ds, vs = zip(*[fresh_txin(ex, ctx, P, f"{pname}_{i}") for i in range(2)])
+            args.append(ListV(list(vs)))
+            desc.append(("txins", list(ds)))
+        elif t in ("std::vec::Vec<transaction::txout::TxOut>", "Vec<txout::TxOut>", "std::vec::Vec<txout::TxOut>"):
+            ds, vs = zip(*[fresh_txout(ex, ctx, P, f"{pname}_{i}") for i in range(2)])
+            args.append(ListV(list(vs)))
+            desc.append(("txouts", list(ds)))
+        elif t.endswith("sighash::SigHash"):
+            args.append(flag_enum(P, choice["flag"]))
+            desc.append(("flag", choice["flag"]))
+        elif t.endswith("script::Script") and t.startswith("&"):
+            s, L = sym_bytes(ex, ctx, pname + "_script")
+            args.append(Ptr([mk_script(s)], 0))
+            desc.append(("script", (s, L)))
+        elif "PrivateKey" in t and t.startswith("&"):
+            args.append(Ptr([Opaque("PrivateKey")], 0))
+            desc.append(("key", None))
+        else:
+            raise Unsupported(f"cannot synthesise an argument of type {ty} for {f.name}")
+    return args, desc
+
+
+def q_cache_step(env, k_in, k_out, only=None, name=None, all_states=False, max_script=252):
+    """C04 inductive step: from every state satisfying Inv (each cache slot absent or current), every `&mut Transaction`
+    method leaves a state satisfying Inv."""
+    qr = QResult(name or f"cache_step_k{k_in}x{k_out}")
+    P = env.P
+    all_flags = sorted(P.enums["SigHash"].values())
+    stale = {}
+    for mname in mutators(P):
+        short = mname.split("::")[-1]
+        if only and short not in only:
+            continue
+        f = P.fns[mname]
+        has_flag = any(re.sub(r"\s+", "", ty).endswith("sighash::SigHash") for _, ty in f.params[1:])
+        choices = [{"flag": fl} for fl in all_flags] if has_flag else [{}]
+        for choice in choices:
+            states = list(itertools.product([False, True], repeat=3)) if all_states else [(False, False, False), (True, True, True)]
+            for st in states:
+                if len(qr.violations) >= MAX_VIOLATIONS:
+                    break
+                qr.cases += 1
+                ex = env.new_exec()
+
+                def setup(ex, st=st, choice=choice):
+                    ctx = Ctx()
+                    base = SymTx(ex, ctx, k_in, k_out)
+                    sp = slot_specs(base)
+                    tx = SymTx(ex, ctx, k_in, k_out, cache=tuple(sp[i] if st[i] else None for i in range(3)))
+                    ctx.tx = tx
+                    ctx.txptr = Ptr([tx.value], 0)
+                    args, desc = synth_args(ex, ctx, P, f, choice)
+                    ctx.desc = desc
+                    # cache behaviour does not depend on compact-size classes: one class only (C01/C03/C10 cover the others)
+                    for L in all_len_vars(ctx):
+                        ctx.assumptions.append(z3.ULE(L, z3.BitVecVal(max_script, 64)))
+                    return mname, [ctx.txptr] + args, ctx
+                try:
+                    results = ex.explore(setup)
+                except Unsupported as e:
+                    qr.undecided.append(f"{short} {choice} cache={st}: {e}")
+                    continue
+                for r in results:
+                    qr.paths += 1
+                    if r.kind != "ok":
+                        continue   # a panicking call returns no state (totality is not this property)
+                    try:
+                        view = TxView(ex, P, r.ctx.txptr.get())
+                    except Unsupported as e:
+                        qr.undecided.append(f"{short}: {e}")
+                        continue
+                    want = slot_specs(view)
+                    for si, slot in enumerate(view.slots):
+                        if slot.variant != "Some":
+                            continue
+                        h = slot.f[0].f[0].s
+                        stt = {}
+                        outs = SE.compare(list(r.pc), h, want[si], stt)
+                        qr.solver_s += stt.get("solver_s", 0.0)
+                        qr.queries += stt.get("queries", 0)
+                        for o in outs:
+                            if o[0] == "unknown":
+                                qr.undecided.append(f"{short}: slot {SLOT_NAMES[si]}: solver unknown")
+                        if not any(o[0] == "differ" for o in outs):
+                            continue
+                        key = (short, si)
+                        stale.setdefault(key, {"reproduced": False, "note": None})
+                        if stale[key]["reproduced"]:
+                            continue
+                        so = compare_small(r.pc, all_len_vars(r.ctx), h, want[si], stt)
+                        if so is None:
+                            stale[key]["note"] = "stale only for byte strings above the replay cap"
+                            continue
+                        item = cache_replay(env, r.ctx, so[2], short, choice, st, si, k_in, k_out)
+                        if item.get("reproduced"):
+                            stale[key]["reproduced"] = True
+                            if len(qr.violations) < MAX_VIOLATIONS:
+                                qr.violations.append(item)
+                        else:
+                            stale[key]["note"] = f"cache={st}: native replay showed no differing preimage: {json.dumps(item.get('native'))[:240]}"
+                finish(qr, ex)
+    for (short, si), v in stale.items():
+        if not v["reproduced"]:
+            qr.undecided.append(f"{short}: slot {SLOT_NAMES[si]} is not 'absent or current' after the call in the encoding, but no native history reproduced a differing preimage ({v['note']})")
+    return qr
+
+
+def cache_replay(env, ctx, m, short, choice, st, si, k_in, k_out):
+    """history: build tx, prime the cache, call the mutator, then compare preimage(reader flag) with the same on a reparsed copy"""
+    b = Binder(m)
+    txj = b.tx(ctx.tx)
+    ops = prime_ops(st, txj)
+    op = {"op": short}
+    vals = []
+    for kind, d in ctx.desc:
+        if kind == "usize":
+            op["index"] = b.bv(d)
+        elif kind in ("u32", "u64"):
+            op["v"] = b.bv(d)
+        elif kind == "txin":
+            op["input"] = b.txin(d)
+        elif kind == "txout":
+            op["output"] = b.txout(d)
+        elif kind == "flag":
+            op["flag"] = d
+        elif kind == "script":
+            op["subscript"] = b.script(*d).hex()
+        elif kind in ("txins", "txouts", "key"):
+            op.setdefault("unsupported_native", []).append(kind)
+    if short in ("sighash_preimage_impl", "sighash_bip143", "sighash_legacy", "sign_impl", "sign_with_k_impl"):
+        op = {"op": "preimage", "flag": choice.get("flag", 0x41), "idx": op.get("index", 0), "subscript": op.get("subscript", "51"), "value": op.get("v", 1)}
+    elif short in ("hash_inputs", "hash_sequence", "hash_outputs"):
+        # private fill functions are reached through the public preimage call with the same flag
+        op = {"op": "preimage", "flag": choice.get("flag", 0x41), "idx": op.get("index", 0), "subscript": "51", "value": 1}
+    ops.append(op)
+    reader = {"op": "preimage", "flag": SLOT_READER[si], "idx": 0, "subscript": "51", "value": 1}
+    a_i = len(ops)
+    ops += [reader, {"op": "reparse"}, dict(reader)]
+    req = {"tx": txj, "ops": ops}
+    item = {"message": f"after {short}{choice if choice else ''} from cache state {dict(zip(SLOT_NAMES, st))}, slot {SLOT_NAMES[si]} holds a stale hash: the next sighash differs from the one on a freshly parsed copy",
+            "request": req, "op_index": a_i, "compare": "pair", "pair": [a_i, a_i + 2], "expected": "preimage(history) == preimage(reparsed copy)"}
+    native = {}
+    rep = False
+    for prof in ("debug", "release"):
+        out = C.Native.run(req, prof)
+        native[prof] = {"history": out[a_i] if a_i < len(out) else out[-1], "reparsed": out[a_i + 2] if a_i + 2 < len(out) else None}
+        if a_i + 2 < len(out) and "ok" in out[a_i] and "ok" in out[a_i + 2] and out[a_i] != out[a_i + 2]:
+            rep = True
+    item["native"] = native
+    item["reproduced"] = rep
+    return item
